@@ -421,6 +421,32 @@ def r2c_fresh_body_iterator(ctx, rule='C12.R2'):
     ctx.count('stream_body_iterators', n)
 
 
+def r2d_no_read_in_flight(ctx, rule='C12.R2'):
+    """A retried upload rewinds its stream and reads it again from the start.  That is only sound if no read of the
+    previous attempt is still in flight: the body iterators (utils.iter_chunks / aiter_chunks) read in the caller, one
+    read at a time.  A read handed to another thread or task (read-ahead) can complete after the rewind and move the
+    position - the retry then sends the body from the wrong offset under the hash and length of the whole payload."""
+    um = ctx.corpus.module('utils')
+    n = 0
+    for nm in ('iter_chunks', 'aiter_chunks', 'async_gen_wrapper'):
+        f = um.functions.get(nm)
+        if f is None:
+            continue
+        n += 1
+        ctx.analysed(f)
+        bad = [c for g in [f] + list(f.all_nested()) for c in calls_in(g.node) if (isinstance(c.func, ast.Attribute) and c.func.attr in ('run_in_executor', 'to_thread', 'create_task', 'ensure_future', 'submit', 'start', 'run_coroutine_threadsafe')) or (dotted(c.func) or '').rsplit('.', 1)[-1] in ('Thread', 'to_thread', 'create_task', 'ensure_future')]
+        ctx.check(
+            not bad,
+            rule,
+            f'{func_label(f)}|no-read-in-flight',
+            loc(f, bad[0] if bad else f.node),
+            f'utils.{nm}: reads the stream in the caller, one read at a time',
+            f'utils.{nm}: hands a read of the stream to another thread / task (`{src(bad[0], 60) if bad else ""}`): a read that is still in flight when a failed attempt rewinds the stream '
+            'moves the position afterwards - the retried request sends a shifted / truncated body under the hash and length of the whole payload',
+        )
+    ctx.floor(rule, 'stream body iterators in utils', n, 2)
+
+
 def r3_wrappers(ctx):
     corpus = ctx.corpus
     up, down = _called_on_streams(corpus)
@@ -648,6 +674,7 @@ def run(ctx):
     handlers_use_bound_names(ctx, 'C12.R2', [m for ci in backend_classes(ctx.corpus) for m in own_methods(ctx.corpus, ci).values()], 'retried transfer')
     r2_rewind(ctx)
     r2c_fresh_body_iterator(ctx)
+    r2d_no_read_in_flight(ctx)
     r3_wrappers(ctx)
     r4_reauth(ctx)
     r4c_throttling_is_not_an_auth_fault(ctx)
